@@ -111,6 +111,49 @@ def c11_extra(ctx):
     return out
 
 
+def c04_extra(ctx):
+    """process-level part of C04: the built binary on accepted files whose expressions / statements nest deeply.
+    A run that is killed (stack exhausted) is an aborted run.  Depths up to 40 must pass (about half of the 8 MiB default stack); the debug profile is known to
+    exhaust the main thread's stack from about 80 levels of binary operators on (known finding K2)."""
+    out = {"coverage": {}, "violations": [], "broken": [], "evaluations": 0, "samples": [], "distinct": []}
+    binary, err = proc.build_binary(ctx)
+    if not binary:
+        out["broken"].append({"what": "correspondence", "name": "solstat binary does not build", "log": err})
+        return out
+    root = proc.scratch_root()
+    shapes = {
+        "sum": lambda n: "return " + " + ".join(["a"] * n) + ";",
+        "and": lambda n: "require(" + " && ".join(["a > 1"] * n) + "); return a;",
+        "parens": lambda n: "return " + "(" * n + "a" + ")" * n + ";",
+        "calls": lambda n: "return " + "f(" * n + "a" + ")" * n + ";",
+        "blocks": lambda n: "{ " * n + "a++;" + " }" * n + " return a;",
+        "ifs": lambda n: "".join("if (a > %d) { " % i for i in range(n // 2)) + "a++;" + " }" * (n // 2) + " return a;",   # an `if` and its block: two levels
+        "ternary": lambda n: "return " + "".join("a > %d ? %d : " % (i, i) for i in range(n)) + "0;",
+    }
+    depths = [10, 25, 40, 120] + ([250, 500] if ctx["tier"] == "thorough" else [])
+    try:
+        results = []
+        for shape, mk in shapes.items():
+            for n in depths:
+                d = os.path.join(root, f"{shape}{n}")
+                os.makedirs(os.path.join(d, "contracts"))
+                open(os.path.join(d, "contracts", "Deep.sol"), "w").write(
+                    "pragma solidity 0.8.17;\ncontract Deep { function f(uint256 a) public returns (uint256) { %s } }\n" % mk(n))
+                code, rep, err = proc.run_solstat(binary, d, [])
+                out["evaluations"] += 1
+                results.append((shape, n, code))
+                out["distinct"].append(f"depth-{shape}-{n}")
+                if code != 0:
+                    killed = code < 0 or code == 134
+                    out["violations"].append({"kind": "PROC", "group": "depth",
+                        "why": ("K2: stack exhausted" if killed else "run fails") + f" (exit status {code}) on an accepted file whose {shape} nest {n} deep (debug profile)",
+                        "stderr": err[-300:], "shape": shape, "depth": n})
+        out["coverage"]["depth_runs"] = [f"{s}:{n}:{'ok' if c == 0 else c}" for s, n, c in results]
+    finally:
+        shutil.rmtree(root, ignore_errors=True)
+    return out
+
+
 def c14_extra(ctx):
     out = {"coverage": {}, "violations": [], "broken": [], "evaluations": 0, "samples": [], "distinct": []}
     binary, err = proc.build_binary(ctx)
@@ -348,6 +391,7 @@ PROPS = {
         },
         "obs": [("det", ["--hostile"])],
         "kinds": ["DET", "LINES", "FILE"],
+        "extra": c04_extra,
         "viol_only_prefix": "panic",
         "disagree_only_prefix": "panic",   # what a detector returns is C05-C09's business; C04 is about returning at all
         "release_too": True,
@@ -485,6 +529,7 @@ PROPS = {
             ],
             "Solstat.Props.MapLoc": ["allNodes_mapLoc", "extract_mapLoc", "mapLoc_comp", "mapLoc_id", "mapLoc_leftInverse", "mapLoc_congr",
                                      "filterMap_detector_equivariant"],
+            "Solstat.Props.C17p": ["matchVersionAt_append", "scanVersion_append", "scanVersion_respace", "versionOfValue_respace"],
             "Solstat.Props.C17b": [
                 "listEquiv_of_fwd", "optEquiv_of_fwd", "contractFunctions_mapLoc", "storageVarTable_mapLoc", "stripSubscripts_mapLoc'",
                 "payableFunction_equivariant", "constructorOrder_equivariant", "privateConstant_equivariant",
@@ -534,6 +579,7 @@ PROPS = {
                                   "C19_local", "solidityPragmas_keep", "versionOf_keep"],
             "Solstat.Props.C19b": ["compose_versionGated", "stringErrors_composes", "shortRevertString_composes", "incrementDecrement_composes"],
             "Solstat.Props.C19c": ["storageVarEntries_parts", "writtenNames_parts", "sstore_composes", "keep_sublist", "constantVariables_composes"],
+            "Solstat.Props.C19e": ["lfPositionsFrom_blank", "lineOf_blank", "lines_compose", "lines_compose_of_distributes", "item_lines"],
             "Solstat.Props.C19d": ["mem_immutableVariables", "constructorAssigns_parts", "writtenOutsideConstructors_parts", "immutableVariables_composes"],
             "Solstat.Props.Compose": ["allNodes_sourceUnit", "extract_sourceUnit"],
             "Solstat.Props.C01": ["C01", "blocked_empty"],
